@@ -32,14 +32,19 @@ def main():
     if sh("git -C %s status --porcelain" % REPO).stdout.strip():
         print("/repo is not clean"); sys.exit(2)
     res = {"property": meta["property"], "title": meta.get("title"), "checks": {}}
+    demo = os.path.join(d, "demo.py")
+    if os.path.exists(demo):
+        res["demo_exit_clean"] = sh("cd %s && /venv/bin/python %s" % (REPO, demo), timeout=300).returncode
     r = sh("git -C %s apply %s" % (REPO, os.path.join(d, "patch.diff")))
     if r.returncode != 0:
         print("patch does not apply:", r.stdout); sys.exit(2)
     try:
-        demo = os.path.join(d, "demo.py")
         if os.path.exists(demo):
             r = sh("cd %s && /venv/bin/python %s" % (REPO, demo), timeout=300)
             res["demo_exit_patched"] = r.returncode
+        if "--notests" not in args:
+            r = sh("cd %s && ./baseline.sh 2>&1 | tail -1" % VERIF, timeout=1800)
+            res["tests_patched"] = r.stdout.strip().splitlines()[-1] if r.stdout.strip() else ""
         for p in props:
             t0 = time.time()
             r = sh("cd %s && ./check %s --tier %s" % (VERIF, p, tier), timeout=3600)
@@ -53,6 +58,7 @@ def main():
             print("WARNING: /repo not clean after undo:", left)
     res["detected_by"] = sorted(p for p, v in res["checks"].items() if v["exit"] == 1)
     json.dump(res, open(os.path.join(d, "result.json"), "w"), indent=1)
+    print("demo clean/patched:", res.get("demo_exit_clean"), res.get("demo_exit_patched"), "| tests:", res.get("tests_patched"))
     print("detected by:", res["detected_by"])
 
 
